@@ -1,5 +1,6 @@
 """C02 - ECH is accepted only for an authentic payload bound to the exact outer hello."""
 import echcommon
+import vlib
 
 
 def run(ctx):
@@ -7,6 +8,10 @@ def run(ctx):
                 "(swap/drop/add/change extension, session id, config id, suite, enc, payload, wrong key, wrong info) x key list; plus, for "
                 "accepted honest hellos, EVERY single-bit flip of the concrete outer ClientHello body; distinct = distinct abstract case")
     ctx.assumptions = ["symbolic (Dolev-Yao) AEAD in the model; the concrete side uses crypto/hpke, so internal/hpke is bound by interop only"]
+    # self-check of the hand-written HPKE key schedule the small-order-enc operators are sealed with (against crypto/hpke)
+    rc, out = ctx.go_test("^TestManualHPKE$", env={}, timeout=600)
+    if rc != 0:
+        raise vlib.Inconclusive("hand-written HPKE schedule disagrees with crypto/hpke:\n" + out[-1500:])
     # abstract tamper operators on every layout
     echcommon.run_family(ctx, ["MCEchHello_c02.cfg"], sample=2500 if ctx.quick else None, what="C02")
     # binding of 'field changed' to 'any bit of the field changed': all bit flips of honest hellos
